@@ -39,6 +39,9 @@ def main(tier):
     behs = r.prints["REPLAY"]
     if tier == "quick":
         behs = [b for i, b in enumerate(behs) if (i + seed()) % 3 == 0 or b["allbenign"]]
+    # an archive cannot hold the same name twice (the writer refuses it): part sequences that spell the same string
+    # (<<"out2/f">> and its partner) are one member, not two
+    behs = [b for b in behs if len({name_str(n) for n in b["names"]}) == len(b["names"])]
     mlar = build_mlar()
     build("prod")
     arena = workdir("c16")
